@@ -2,6 +2,7 @@
 import gc
 import json
 import os
+import re
 import random
 import subprocess
 import sys
@@ -108,6 +109,7 @@ def gen_scenario(rng):
     confs = [gen_conf(rng) for _ in range(rng.randint(3, 5))]
     requests = []
     cur_fmt = {}
+    cur_removed = {}
     for _ in range(rng.randint(16, 30)):
         o = rng.randrange(len(objects))
         if rng.random() < 0.4:
@@ -125,9 +127,20 @@ def gen_scenario(rng):
         for nc in ([False, True] if rng.random() < 0.6 else [rng.random() < 0.3]):
             requests.append({'obj': o, 'conf': c, 'no_color': nc, 'mode': mode, 'via': via,
                              'long_lived_conf': long_lived})
+            if via in ('explicit', 'palette_class', 'custom_palette') and not long_lived and rng.random() < 0.4:
+                requests[-1]['discard_conf'] = True
             if via == 'global' and objects[o]['kind'] not in ('hdoc', 'ppwrap') and rng.random() < 0.5:
                 requests[-1]['switch_conf'] = confs[(c + 1) % len(confs)]
-            if objects[o]['kind'] == 'table' and 'base_spec' not in objects[o]:
+            if objects[o]['kind'] == 'table' and 'base_spec' not in objects[o] and (o % 2 == 0 or o in cur_removed) \
+                    and o not in cur_fmt:
+                # columns are removed from the long-lived table (by field name) from now on
+                fields = sorted({re.match(r"[a-z]+", x).group() for x in objects[o]['fmt'].split(";")[0].split(",")})
+                left = [f for f in fields if f not in cur_removed.get(o, [])]
+                if len(left) > 1 and rng.random() < 0.3:
+                    cur_removed.setdefault(o, []).append(rng.choice(left))
+                if o in cur_removed:
+                    requests[-1]['removed'] = list(cur_removed[o])
+            elif objects[o]['kind'] == 'table' and 'base_spec' not in objects[o]:
                 if rng.random() < 0.3:
                     # the table is shown with another set of columns (and its limits given again) from now on
                     cols = [x for x in objects[o]['fmt'].split(";")[0].split(",")]
@@ -135,6 +148,24 @@ def gen_scenario(rng):
                     cur_fmt[o] = ",".join(keep) + rng.choice([";*", ";2:1", ";*"])
                 if o in cur_fmt:
                     requests[-1]['set_fmt'] = cur_fmt[o]
+    # one more long-lived table: record limits, a break-by column (break lines use up the limit slots), wider
+    # values further down.  It is rendered, loses the break-by column, and is rendered again.
+    o = len(objects)
+    n = rng.choice([6, 9, 12])
+    objects.append({'kind': 'table', 'fmt': rng.choice(["b!,a,d;2:2", "a,b!,d;2:2", "b!,d;2:2"]),
+                    'header': None, 'footer': None, 'titles': None, 'tid': o,
+                    # (the break-by value changes with every record; the second and the last but one record
+                    # are the wide ones: hidden while break lines take the slots, visible afterwards)
+                    'recs': [[i, "k%d" % (i % 2), 1, "a much longer value %d" % i if i in (1, n - 2) else "r%d" % i]
+                             for i in range(n)]})
+    c = rng.randrange(len(confs))
+    for removed in ([], ['b']):
+        for nc in (False, True):
+            req = {'obj': o, 'conf': c, 'no_color': nc, 'mode': rng.choice(['whole', 'lines', 'copy']),
+                   'via': 'explicit', 'long_lived_conf': False}
+            if removed:
+                req['removed'] = removed
+            requests.append(req)
     return {'objects': objects, 'confs': confs, 'requests': requests}
 
 
@@ -250,15 +281,16 @@ def run_scenario(ctx, scenario, case, workdir):
             problems.append(("malformed-escape-sequence-in-rendering", dict(where, err=str(err))))
             continue
         same = by_req.setdefault((req['obj'], req['conf'], req['no_color'], req['via'] == 'custom_palette',
-                                  req.get('set_fmt')),
+                                  req.get('set_fmt'), tuple(req.get('removed') or ())),
                                  (out, req['mode'], idx))
         if same[0] != out:
             problems.append(("line-iteration-differs-from-whole-text",
                              dict(where, other_request=same[2], other_mode=same[1])))
             continue
-        other = first.get((req['obj'], req['conf'], req.get('set_fmt')))
+        okey = (req['obj'], req['conf'], req.get('set_fmt'), tuple(req.get('removed') or ()))
+        other = first.get(okey)
         if other is None:
-            first[(req['obj'], req['conf'], req.get('set_fmt'))] = (req['no_color'], stripped, idx)
+            first[okey] = (req['no_color'], stripped, idx)
         elif other[0] != req['no_color']:
             ctx.count("strip_equals_no_color_checks")
             if other[1] != stripped:
